@@ -555,8 +555,8 @@ MUTANTS += [
          old="        try:\n            left = self.token_map[stream.current.type_](stream)\n        except KeyError as err:\n            if stream.current.type_ in (TokenType.EOF, TokenType.RBRACKET):\n                msg = \"end of expression\"\n            else:\n                msg = repr(stream.current.value)\n            raise JSONPathSyntaxError(\n                f\"unexpected {msg}\", token=stream.current\n            ) from err\n",
          new="        try:\n            fn_ = self.token_map[stream.current.type_]\n        except KeyError as err:\n            if stream.current.type_ in (TokenType.EOF, TokenType.RBRACKET):\n                msg = \"end of expression\"\n            else:\n                msg = repr(stream.current.value)\n            raise JSONPathSyntaxError(\n                f\"unexpected {msg}\", token=stream.current\n            ) from err\n        left = fn_(stream)\n"),
     dict(id="c13-float-literal-handler-removed", props=["C13"], file=PARSE,
-         old="        try:\n            return FloatLiteral(stream.current, value=float(stream.current.value))\n        except ValueError as err:\n            raise JSONPathSyntaxError(\n                \"invalid float literal\", token=stream.current\n            ) from err",
-         new="        return FloatLiteral(stream.current, value=float(stream.current.value))"),
+         old="        try:\n            number = float(stream.current.value)\n        except ValueError as err:\n            raise JSONPathSyntaxError(\n                \"invalid float literal\", token=stream.current\n            ) from err\n",
+         new="        number = float(stream.current.value)\n"),
     dict(id="c13-name-selector-no-suppress", props=["C13", "C01"], file=SEL,
          old="            with suppress(KeyError):\n                yield node.new_child(node.value[self.name], self.name)", new="            yield node.new_child(node.value[self.name], self.name)"),
     dict(id="c13-lt-no-isinstance-guard", props=["C13", "C06"], file=FE,
